@@ -558,7 +558,13 @@ class Parser(Generic[TK_co], metaclass=ParserMeta):
                 else:
                     self.next_token = self.symbol_table['(decimal)'](self, value)
             else:
-                self.next_token = self.symbol_table['(integer)'](self, int(literal))
+                try:
+                    value = int(literal)
+                except ValueError as err:  # beyond the interpreter's limit for integer strings
+                    self.next_token = self.symbol_table['(invalid)'](self, literal)
+                    raise self.next_token.wrong_syntax(message=str(err))
+                else:
+                    self.next_token = self.symbol_table['(integer)'](self, value)
 
         elif name is not None:
             self.next_token = self.symbol_table['(name)'](self, name)
